@@ -568,6 +568,11 @@ pub fn run_family(family: &str, scn_seed: u64, idx: u64, params: &Params, out: &
         }
         "frag-len" => {
             // idx 0..=5794 sweeps every length exhaustively; larger idx sample lengths up to 1 MB
+            // "first": a stride through the sweep for runs that can afford only a few lengths
+            let idx = match params.get("first") {
+                Some(f) => f.parse::<u64>().unwrap_or(0) + idx * 723,
+                None => idx,
+            };
             let len = if idx <= 4 * MAX_FRAGMENT_SIZE as u64 + 2 {
                 idx as usize
             } else {
